@@ -605,3 +605,23 @@ def rule_T_IDENT_CLASS(ctx, T, models=("enum", "lex")):
                 continue
             ok = ("call", "std::char::methods::<impl char>::is_alphanumeric") in p and ("lit", "_") in p and ("lit", "-") in p
             ctx.ob("T-IDENT-CLASS", "%s %s identifier predicate ⊇ is_alphanumeric ∪ {_,-}" % (model, name), ok, "%s" % sorted(p))
+
+
+def rule_T_SPACE(ctx, T, models=("enum", "lex")):
+    ctx.rule("T-SPACE", "what the formatters write between terms / items is something the parsers skip: every table's space.format_terms and "
+             "space.format_items consist only of repetitions of its space.parse keyword (enum) / of whitespace characters (lexical, whose "
+             "parser strips char::is_whitespace) -- possibly empty")
+    for name in T.names:
+        if "enum" in models:
+            sp = T.enum[name]["space"]
+            unit = sp.get("parse") or ""
+            for fld in ("format_terms", "format_items"):
+                v = sp.get(fld)
+                ok = isinstance(v, str) and (v == "" or (unit and v.replace(unit, "") == ""))
+                ctx.ob("T-SPACE", "enum %s space.%s %r is skippable" % (name, fld, v), ok, "not a repetition of space.parse %r" % unit)
+        if "lex" in models:
+            sp = T.lex[name]["space"]
+            for fld in ("format_terms", "format_items"):
+                v = sp.get(fld)
+                ok = isinstance(v, str) and all(ch.isspace() for ch in v)
+                ctx.ob("T-SPACE", "lexical %s space.%s %r is whitespace" % (name, fld, v), ok, "contains a non-whitespace character")
